@@ -106,10 +106,15 @@ type c24Run struct {
 	sawQueued, sawQueuedAdmitted, sawCancelQueued, sawPreCancelled, sawCancelInFlight, sawFull bool
 }
 
+// c24UnknownLenEvery is set by the property before a schedule is played: every n-th request then has
+// no declared body length (chunked transfer), which must not change how it is gated.
+var c24UnknownLenEvery int64
+
 func c24NewRun(tb testing.TB, n, rf, nodes int, algo HashringAlgorithm) *c24Run {
 	cfg := vfConfig{rf: uint64(rf), nodes: nodes, algo: algo, mode: RouterOnly, workers: 32,
 		limits: fmt.Sprintf("write:\n  global:\n    max_concurrency: %d\n", n)}
 	hz := vfNewHarness(tb, cfg)
+	hz.unknownLenEvery = c24UnknownLenEvery
 	g := &c24Gate{inner: hz.h.Limiter.writeGate, ev: make(chan c24Ev, 4096)}
 	hz.h.Limiter.writeGate = g
 	return &c24Run{tb: tb, hz: hz, n: n, rf: rf, gate: g}
@@ -466,15 +471,21 @@ func TestVerifC24(t *testing.T) {
 				pick: rapid.IntRange(0, 5).Draw(rt, "pick"),
 			})
 		}
+		c24UnknownLenEvery = int64(rapid.SampledFrom([]int{0, 0, 1, 2, 3}).Draw(rt, "unknownLengthEvery"))
 		r := c24Play(t, n, rf, nodes, algo, acts)
+		unk := c24UnknownLenEvery
+		c24UnknownLenEvery = 0
 		if r.viol != "" {
-			rt.Fatalf("C24 violated: %s\nmax_concurrency=%d rf=%d nodes=%d %s schedule=%v\nhistory:\n%s", r.viol, n, rf, nodes, algo, acts, r.history())
+			rt.Fatalf("C24 violated: %s\nmax_concurrency=%d rf=%d nodes=%d %s unknownLengthEvery=%d schedule=%v\nhistory:\n%s", r.viol, n, rf, nodes, algo, unk, acts, r.history())
 		}
 		if known[sigC24Done] && r.sawQueued {
 			// a client giving up while queued was possible here and is not generated while F10 is open
 			rec.Excluded(sigC24Done)
 		}
 		classes := []string{fmt.Sprintf("limit-%d", n), fmt.Sprintf("max-inside-%d", r.maxIn)}
+		if unk > 0 {
+			classes = append(classes, "requests-without-content-length")
+		}
 		endpoints := map[string]bool{}
 		for _, q := range r.reqs {
 			endpoints[q.kind] = true
